@@ -405,6 +405,11 @@ def execute(case, keep_text=False, after_fit=None):
                              % (fn, float(ent['mean']), wmean))
                     map_vec.append(mp)
                 else:
+                    nm_ = np.asarray(ent['nest_mean'], dtype=float).ravel()
+                    if nm_.size != 1 or abs(float(nm_[0]) - wmean) > \
+                            1e-9 * max(abs(wmean), 1e-300):
+                        viol('mean', 'polychord', '%s: %r vs weighted mean %r'
+                             % (fn, ent['nest_mean'], wmean))
                     mp = np.asarray(ent['nest_map'], dtype=float).ravel()
                     if mp.size != 1 or float(mp[0]) not in col:
                         viol('map', 'polychord', '%s: nest_map %r is not a '
